@@ -1,4 +1,5 @@
 import DimodProofs.EqualityViews
+import DimodProofs.EqualityCqm
 
 /-! # C18 — model equality is total, symmetric and sensitive to every coefficient
 
@@ -207,6 +208,115 @@ example : viewEq .quadratic
   ∧ viewEq .quadratic
     { kind := .qm, vars := [.str "a", .str "b"], lin := [0, 0], quad := [(.str "a", .str "b", 2)], off := 0, types := [] }
     { kind := .bqm .spin, vars := [.str "b", .str "a"], lin := [5, 5], quad := [(.str "b", .str "a", 2)], off := 1, types := [] } = true := by
+  decide +kernel
+
+/-! ## CQMs: every variable counts (used by an expression or not), `is_almost_equal`, and symmetry for every class pair -/
+
+/-- **The per-variable types of ALL variables of a CQM are compared** — also of a variable that occurs in no expression
+    (declared with `add_variable` only, or left behind by `remove_constraint`): equal CQMs have the same `vartype` table
+    (`lookup a.vars v = lookup b.vars v` for every label `v`: same presence, same type), and one label on which the tables
+    differ — a type only, or a presence only — makes `is_equal` and `is_almost_equal` `False`. -/
+theorem isEqual_cqm_all_variables (p : Int) (a b : CqmVal) (ha : CqmWFv a) (hb : CqmWFv b) :
+    (isEqual (.cqm a) (.cqm b) = .ok true → ∀ v, QModel.lookup a.vars v = QModel.lookup b.vars v)
+    ∧ (isAlmostEqual p (.cqm a) (.cqm b) = .ok true → ∀ v, QModel.lookup a.vars v = QModel.lookup b.vars v)
+    ∧ ((∃ v, QModel.lookup a.vars v ≠ QModel.lookup b.vars v) →
+        isEqual (.cqm a) (.cqm b) = .ok false ∧ isAlmostEqual p (.cqm a) (.cqm b) = .ok false) := by
+  have h1 : isEqual (.cqm a) (.cqm b) = .ok true → ∀ v, QModel.lookup a.vars v = QModel.lookup b.vars v :=
+    fun h => ((isEqual_iff_canon_cqm a b ha hb).mp h).vars
+  have h2 : isAlmostEqual p (.cqm a) (.cqm b) = .ok true → ∀ v, QModel.lookup a.vars v = QModel.lookup b.vars v :=
+    fun h => ((cqmAlmost_iff_canon p a b ha hb).mp h).vars
+  refine ⟨h1, h2, ?_⟩
+  rintro ⟨v, hv⟩
+  obtain ⟨r1, hr1⟩ := isEqual_total_cqm a (.cqm b) (by intro o h; cases h; exact cqmTypesOK_of_wf hb)
+  obtain ⟨r2, hr2⟩ : ∃ r, isAlmostEqual p (.cqm a) (.cqm b) = .ok r := cqmAlmost_total p a (.cqm b)
+  constructor
+  · cases r1 with
+    | false => exact hr1
+    | true => exact absurd (h1 hr1 v) hv
+  · cases r2 with
+    | false => exact hr2
+    | true => exact absurd (h2 hr2 v) hv
+
+/-- any single difference between two CQMs — one variable's label or type (whether used or not), anything in the
+    objective, a constraint present on one side only, or under one label the sense, the right-hand side or anything in the
+    left-hand side — makes `is_equal` `False` -/
+theorem isEqual_sensitive_cqm (a b : CqmVal) (ha : CqmWFv a) (hb : CqmWFv b)
+    (hdiff : (∃ v, QModel.lookup a.vars v ≠ QModel.lookup b.vars v) ∨ ¬ CanonEq a.obj b.obj
+      ∨ (∃ l, (findCons a.cons l).isSome ≠ (findCons b.cons l).isSome)
+      ∨ (∃ l c d, findCons a.cons l = some c ∧ findCons b.cons l = some d
+          ∧ (c.sense ≠ d.sense ∨ c.rhs ≠ d.rhs ∨ ¬ CanonEq c.lhs d.lhs))) :
+    isEqual (.cqm a) (.cqm b) = .ok false := by
+  obtain ⟨r, hr⟩ := isEqual_total_cqm a (.cqm b) (by intro o h; cases h; exact cqmTypesOK_of_wf hb)
+  cases r with
+  | false => exact hr
+  | true =>
+    exfalso
+    have h := (isEqual_iff_canon_cqm a b ha hb).mp hr
+    rcases hdiff with ⟨v, hv⟩ | hobj | ⟨l, hl⟩ | ⟨l, c, d, hc, hd, hne⟩
+    · exact hv (h.vars v)
+    · exact hobj h.obj
+    · have := h.cons l
+      cases hfa : findCons a.cons l <;> cases hfb : findCons b.cons l <;> rw [hfa, hfb] at this hl
+      · exact hl rfl
+      · exact this
+      · exact this
+      · exact hl rfl
+    · have := h.cons l
+      rw [hc, hd] at this
+      simp only [] at this
+      rcases hne with h1 | h1 | h1
+      · exact h1 this.1
+      · exact h1 this.2.1
+      · exact h1 this.2.2
+
+/-- `is_almost_equal` between two CQMs: `True` exactly when the objectives are almost equal, every variable of either model
+    is a variable of the other with the same type, the constraint labels coincide and under each label the senses are equal,
+    the right-hand sides differ by something `round(·, places)` sends to 0 and the left-hand sides are almost equal. -/
+theorem almostEqual_iff_cqm (p : Int) (a b : CqmVal) (ha : CqmWFv a) (hb : CqmWFv b) :
+    isAlmostEqual p (.cqm a) (.cqm b) = .ok true ↔ CqmAlmostCanon p a b :=
+  cqmAlmost_iff_canon p a b ha hb
+
+/-- …and it returns a boolean for every argument; against anything that is not a CQM it is `False`, in either order -/
+theorem almostEqual_total_cqm (p : Int) (a : CqmVal) (b : Obj) (m : QModel) (x : Rat) :
+    (∃ r : Bool, isAlmostEqual p (.cqm a) b = .ok r)
+    ∧ isAlmostEqual p (.cqm a) (.model m) = .ok false ∧ isAlmostEqual p (.cqm a) (.num x) = .ok false
+    ∧ isAlmostEqual p (.cqm a) .foreign = .ok false ∧ isAlmostEqual p (.model m) (.cqm a) = .ok false :=
+  ⟨cqmAlmost_total p a b, rfl, rfl, rfl, modelAlmost_vs_cqm p m a⟩
+
+/-- **Symmetry for every pair of classes and both methods**: BQM / QM / view against BQM / QM / view, CQM against CQM, and
+    CQM against model (both `False`), for `is_equal` and for `is_almost_equal` at any number of places (negative included). -/
+theorem symmetric_all_pairs (p : Int) (a b : QModel) (c d : CqmVal) (ha : WF a) (hb : WF b) (hc : CqmWFv c) (hd : CqmWFv d) :
+    isEqual (.model a) (.model b) = isEqual (.model b) (.model a)
+    ∧ isAlmostEqual p (.model a) (.model b) = isAlmostEqual p (.model b) (.model a)
+    ∧ isEqual (.cqm c) (.cqm d) = isEqual (.cqm d) (.cqm c)
+    ∧ isAlmostEqual p (.cqm c) (.cqm d) = isAlmostEqual p (.cqm d) (.cqm c)
+    ∧ isEqual (.cqm c) (.model a) = isEqual (.model a) (.cqm c)
+    ∧ isAlmostEqual p (.cqm c) (.model a) = isAlmostEqual p (.model a) (.cqm c) :=
+  ⟨modelIsEqual_symm a b ha hb, modelAlmost_symm p a b ha hb, cqmIsEqual_symm c d hc hd, cqmAlmost_symm p c d hc hd,
+   by rw [(isEqual_cqm_vs_other c a 0).1, (isEqual_cqm_vs_other c a 0).2.2.2],
+   by rw [(almostEqual_total_cqm p c .foreign a 0).2.1, (almostEqual_total_cqm p c .foreign a 0).2.2.2.2]⟩
+
+/-- **`==` / `!=` are total and symmetric for every pair of operands** — BQM, QM, expression view, CQM, number, any other
+    object, a number **on the left** included (`3 == bqm` is `bqm == 3`; `view == 3`, `cqm == 3`, `qm == qm'` and `3 == 3`-like
+    pairs that no model class handles fall back to identity on both sides).  `DiscreteQuadraticModel` defines neither `==`
+    nor `is_equal` (Python identity; outside the property's "where defined"). -/
+theorem operators_total_symmetric (same : Bool) (a b : Obj)
+    (h : ∀ x y, a = .model x → b = .model y → WF x ∧ WF y)
+    (ha : ∀ o, a = .model o → TypesOK o) (hb : ∀ o, b = .model o → TypesOK o) :
+    (∃ r, opEq same a b = .ok r) ∧ (∃ r, opNe same a b = .ok r)
+    ∧ opEq same a b = opEq same b a ∧ opNe same a b = opNe same b a :=
+  ⟨(opEq_total same a b ha hb).1, (opEq_total same a b ha hb).2, (opEq_symm same a b h).1, (opEq_symm same a b h).2⟩
+
+/-- two CQMs that differ ONLY in the type of a variable no expression uses are different; with equal tables they are equal -/
+example :
+    let e : QModel := { kind := .view, vars := [.str "x"], lin := [1], quad := [], off := 0, types := [(.str "x", .binary), (.str "u", .binary)] }
+    let e' : QModel := { e with types := [(.str "x", .binary), (.str "u", .spin)] }
+    let a : CqmVal := { vars := [(.str "x", .binary), (.str "u", .binary)], obj := e, cons := [] }
+    let b : CqmVal := { vars := [(.str "u", .spin), (.str "x", .binary)], obj := e', cons := [] }
+    let a' : CqmVal := { vars := [(.str "u", .binary), (.str "x", .binary)], obj := e, cons := [] }
+    isEqual (.cqm a) (.cqm b) = .ok false ∧ isAlmostEqual 7 (.cqm a) (.cqm b) = .ok false
+    ∧ isEqualWith true true false (.cqm a) (.cqm b) = .ok true        -- without the variable test (D39 unrepaired) they were equal
+    ∧ isEqual (.cqm a) (.cqm a') = .ok true ∧ isAlmostEqual 7 (.cqm a') (.cqm a) = .ok true := by
   decide +kernel
 
 /-! ## the defects the model was built against (non-vacuity of the flags) -/
